@@ -184,3 +184,21 @@ package decoder
 //@   assert before reference.TraversalToLocalOrigin#1 : [C10] arg2 == schema.ActiveSelfRefsFromContext(ctx)
 //@   assert before reference.TraversalToLocalOrigin#2 : [C10] arg2 == schema.ActiveSelfRefsFromContext(ctx)
 //@   assert before reference.TraversalToLocalOrigin#3 : [C10] arg2 == schema.ActiveSelfRefsFromContext(ctx)
+
+// ---- C13 (and C02 for the hand-computed positions): semantic tokens
+//@ spec shiftedBy(p hcl.Pos, q hcl.Pos, k int) bool = p.Line == q.Line && p.Column == q.Column + k && p.Byte == q.Byte + k
+//@ contract decoder.semanticTokensForTraversal (traversal) (result)
+//@   ensures [C13] len(result) <= 2 * len(traversal)
+//@   loop 1 invariant [C13] len(tokens) <= 2 * (rangeindex + 1) && fresh(tokens)
+//@   loop 1 iter [C13] len(tokens) >= old(len(tokens)) && len(tokens) <= old(len(tokens)) + 2
+//@   loop 1 iter [C02,C13] implies(typeis(t, "hcl.TraverseRoot") && len(tokens) > old(len(tokens)), tokens[len(tokens)-1].Range == t.SourceRange())
+//@   loop 1 iter [C02,C13] implies(typeis(t, "hcl.TraverseAttr") && len(tokens) > old(len(tokens)), tokens[len(tokens)-1].Range.Filename == t.SourceRange().Filename && shiftedBy(tokens[len(tokens)-1].Range.Start, t.SourceRange().Start, 1) && tokens[len(tokens)-1].Range.End == t.SourceRange().End)
+//@   loop 1 iter [C02,C13] implies(typeis(t, "hcl.TraverseIndex") && len(tokens) > old(len(tokens)), tokens[len(tokens)-1].Range.Filename == t.SourceRange().Filename && shiftedBy(tokens[len(tokens)-1].Range.Start, t.SourceRange().Start, 1) && shiftedBy(tokens[len(tokens)-1].Range.End, t.SourceRange().End, -1))
+//@ contract (decoder.Reference).SemanticTokens (ref, ctx) (result)
+//@   ensures [C13] implies(typeis(ref.expr, "*hclsyntax.ScopeTraversalExpr"), len(result) <= 2 * len(as(ref.expr, "*hclsyntax.ScopeTraversalExpr").Traversal))
+//@ contract (*decoder.PathDecoder).tokensForBody (d, ctx, body, bodySchema, parentModifiers) (result)
+//@   requires body != nil
+//@   loop 1 iter [C13] implies(!haskey(bodySchema.Attributes, name) && !(bodySchema.Extensions != nil && name == "count" && bodySchema.Extensions.Count) && !(bodySchema.Extensions != nil && name == "for_each" && bodySchema.Extensions.ForEach) && bodySchema.AnyAttribute == nil, len(tokens) == old(len(tokens)))
+//@   loop 3 iter [C13] implies(i + 1 > len(blockSchema.Labels), len(tokens) == old(len(tokens)))
+//@   loop 3 iter [C13] implies(i + 1 <= len(blockSchema.Labels), len(tokens) == old(len(tokens)) + 1 && tokens[len(tokens)-1].Type == lang.TokenBlockLabel && tokens[len(tokens)-1].Range == labelRange)
+//@   loop 3 iter [C13] implies(i + 1 <= len(blockSchema.Labels), !samearray(tokens[len(tokens)-1].Modifiers, blockModifiers) && !samearray(tokens[len(tokens)-1].Modifiers, parentModifiers) && len(tokens[len(tokens)-1].Modifiers) == len(parentModifiers) + len(blockSchema.SemanticTokenModifiers) + len(blockSchema.Labels[i].SemanticTokenModifiers))
